@@ -10,4 +10,4 @@ for p in $props; do
   echo "$out" | grep -E "^\s+\[" | sed "s/^/  $p /" | cut -c1-200
   [ $rc -ne 0 ] && echo "  $p exit=$rc"
 done
-rm -rf $T; rm -rf /verif/facts/x*
+rm -rf $T; [ -z "$KEEP_XFACTS" ] && rm -rf /verif/facts/x*
